@@ -536,6 +536,11 @@ def partial_eval(folder: Folder, func_node: ast.FunctionDef, mod, cls, env: Dict
                     env[st.targets[0].id] = fold(st.value)
                 except Unfoldable as e:
                     return ("unknown", f"`{src(st)}`: {e}")
+            elif isinstance(st, ast.AugAssign) and isinstance(st.target, ast.Name):
+                try:
+                    env[st.target.id] = fold(ast.BinOp(left=ast.Name(id=st.target.id, ctx=ast.Load()), op=st.op, right=st.value))
+                except Unfoldable as e:
+                    return ("unknown", f"`{src(st)}`: {e}")
             elif isinstance(st, ast.Try):
                 r = run(st.body)
                 if r is not None and r[0] == "raise":
